@@ -335,7 +335,7 @@ def extract(text, spec, with_attrs=False):
                 continue
             for p in _find_seq(toks, pt, lo, hi):
                 q = p + len(pt)
-                if pt[0] in ("fn", "struct", "enum", "const", "type", "static") and len(pt) == 2:
+                if pt[0] in ("fn", "struct", "enum", "const", "type", "static", "trait") and len(pt) == 2:
                     # item: name must be followed by non-identifier continuation
                     if pt[0] == "fn" and toks[q].s not in ("(", "<"):
                         continue
@@ -616,6 +616,8 @@ RULES = {
     "R12f": Rule("R12f", "X.data == [1] -> __vec_is_one(&X.data)", "$x . data == [ 1 ]", "__vec_is_one ( & $x . data )"),
     "R3i": Rule("R3i", "rem.into() -> From::from(rem)  (std: blanket `impl Into<U> for T where U: From<T>`)", "rem . into ( )", "From :: from ( rem )"),
     "R3o": Rule("R3o", "One::one() -> BigUint::one()  (the impl selected by the return type)", "One :: one ( )", "BigUint :: one ( )"),
+    "R12g": Rule("R12g", "BigDigit::from_u128(x) -> __digit_from_u128(x)  (num_traits::FromPrimitive on u64: external crate; helper carries the assumed contract)",
+                 "BigDigit :: from_u128 ( $x )", "__digit_from_u128 ( $x )"),
     "R18": Rule("R18", "|_| E -> |_e| E  (Verus rejects `_` closure parameters)", "| _ |", "| _e |"),
     "R4b": Rule("R4b", "for (a, &b) in I { S } -> for (a, b_r__) in I { let b = *b_r__; S }",
                 "for ( $a , & $b ) in $$i { $$s }",
